@@ -19,13 +19,11 @@ open XmppModel XmppModel.Caps
 theorem C20_gen_identity_keys :
     Generated.C20.identityKeys = some (identityKeys.map IdSel.goName) := by decide
 
-/-- the identity is written as `category/type/lang/name<` -/
-theorem C20_gen_identity_format :
-    Generated.C20.identityFormat = some "%s/%s/%s/%s<" ∧
-    Generated.C20.identityArgs = some (identityArgs.map IdSel.goName) ∧
-    ∀ i, renderId i = (identityArgs.map (·.get i)).foldr
+/-- the identity is written as `category/type/lang/name<` (the four fields in the order of
+`identityArgs`, `/` between them, `<` after the last) -/
+theorem C20_identity_format (i : Identity) :
+    renderId i = (identityArgs.map (·.get i)).foldr
       (fun x acc => x ++ (if acc = [] then lt else slash ++ acc)) [] := by
-  refine ⟨by decide, by decide, fun i => ?_⟩
   simp [identityArgs, IdSel.get, renderId, lt, slash]
 
 /-- features are sorted by `Var`; besides the identities and the features exactly two more
